@@ -102,33 +102,41 @@ def observe_split2(res, hist, kind, ntargets):
     return {"hist": [list(x) for x in hist], "files": files, "uniform": uniform}
 
 
-def render(mlr, hist, kind, mode, pre, block, form):
+# how the target's path is SPELLED by the program (the same file whichever way): (text in front of the name, directory the
+# file is then found in)
+SPELLS = {"clean": ("", ""), "dotslash": ("./", ""), "dslash": ("d//", "d/"), "dotmid": ("d/./", "d/"), "updown": ("d/../", "")}
+SPELL_NAMES = sorted(SPELLS)
+
+
+def render(mlr, hist, kind, mode, pre, block, form, spell="clean"):
     if form == "split2":
         return render_split2(mlr, hist, kind, mode), ""
     ext = EXT[kind]
+    front, where = SPELLS[spell]
     lines = []
     for t, r in hist:
         for j in range(block):
             lines.append("t=%s,i=%d\n" % (tname(t, j), r))
-    files = {"in.dkvp": "".join(lines)}
-    prefix = "out_" if form == "split" else ""
+    files = {"in.dkvp": "".join(lines), "d/.keep": ""}
+    prefix = where + ("out_" if form == "split" else "")
     for t in pre:
         for j in range(block):
             files["%s%s.%s" % (prefix, tname(t, j), ext)] = "PRE\n"
     op = ">" if mode == "write" else ">>"
     argv = [mlr] + OFLAG[kind]
+    name = '"%s".$t.".%s"' % (front, ext)
     if form == "tee":
-        argv += ["put", "-q", 'tee %s $t.".%s", $*' % (op, ext)]
+        argv += ["put", "-q", 'tee %s %s, $*' % (op, name)]
     elif form == "emit":
-        argv += ["put", "-q", 'emit %s $t.".%s", $*' % (op, ext)]
+        argv += ["put", "-q", 'emit %s %s, $*' % (op, name)]
     elif form == "emit-mapexpr":
-        argv += ["put", "-q", 'emit %s $t.".%s", mapsum({"t": $t}, {"i": $i})' % (op, ext)]
+        argv += ["put", "-q", 'emit %s %s, mapsum({"t": $t}, {"i": $i})' % (op, name)]
     elif form == "print":
-        argv += ["put", "-q", 'print %s $t.".%s", "t=".$t.",i=".$i' % (op, ext)]
+        argv += ["put", "-q", 'print %s %s, "t=".$t.",i=".$i' % (op, name)]
     elif form == "split":
-        argv += ["split", "-g", "t", "--prefix", "out"] + (["-a"] if mode == "append" else [])
+        argv += ["split", "-g", "t", "--prefix", front + "out"] + (["-a"] if mode == "append" else [])
     elif form == "pipe":
-        argv += ["put", "-q", 'tee | "cat %s ".$t.".%s", $*' % (op, ext)]
+        argv += ["put", "-q", 'tee | "cat %s %s".$t.".%s", $*' % (op, front, ext)]
     else:
         raise ValueError(form)
     argv += ["in.dkvp"]
@@ -298,8 +306,11 @@ def run(tier, seed):
             if block == 1 and not pre and (thorough or n % 2 == 0):
                 runs.append((c, h, "split2"))       # two group-by fields, values that need escaping in file names
     cases, prefixes = [], []
-    for (kind, mode, k, block, maxw, pre), h, form in runs:
-        case, prefix = render(mlr, h, kind, mode, pre, block, form)
+    for n, ((kind, mode, k, block, maxw, pre), h, form) in enumerate(runs):
+        # the spelling of the paths rotates over the runs (every second run keeps the plain one)
+        spell = "clean" if n % 2 == 0 else SPELL_NAMES[(n // 2) % len(SPELL_NAMES)]
+        case, prefix = render(mlr, h, kind, mode, pre, block, form, spell)
+        case["_spell"] = spell
         cases.append(case)
         prefixes.append(prefix)
     res = vlib.run_cases(cases)
